@@ -45,6 +45,8 @@ def source_text(kind, n):
         return "", "(" + items + ("," if n == 1 else "") + ")"
     if kind == "range":
         return "", "(1..%d)" % (n + 1)
+    if kind == "bytes":
+        return "", "byte_source()"
     raise ValueError(kind)
 
 
@@ -118,6 +120,10 @@ def run(tier, seed):
         k1 = kinds[0]
         jobs.append({"id": "s%d" % i, "src": stepwise_script(p, k1), "limit_ms": 5000})
         meta.append(("step", p, k1))
+        if i % 3 == 1:
+            # a source constructed on the Rust side (bytes 1..n), bidirectional
+            jobs.append({"id": "b%d" % i, "src": stepwise_script(p, "bytes"), "limit_ms": 5000, "bytes": list(range(1, p["n"] + 1))})
+            meta.append(("step", p, "bytes"))
         if p["finite"]:
             k2 = kinds[1 + (i % 2)]
             jobs.append({"id": "c%d" % i, "src": consumers_script(p, k2), "limit_ms": 5000})
@@ -186,7 +192,7 @@ def run(tier, seed):
         "states": res.distinct, "transitions": res.states_generated, "traces_validated_against_impl": len(jobs),
         "samples": [{"pipe": pipes[7]["pipe"], "n": pipes[7]["n"], "script": stepwise_script(pipes[7], "gen")}],
         "evaluations": len(jobs), "distinct_nontrivial": len(pipes),
-        "rule": "every well-formed pipeline of depth <= %d over 25 adaptor instances (each, keep, enumerate, intersperse, chain, zip, "
+        "rule": "sources: generator, list, tuple, range and a byte iterator constructed on the Rust side; every well-formed pipeline of depth <= %d over 25 adaptor instances (each, keep, enumerate, intersperse, chain, zip, "
                 "flatten, reversed, peekable, cycle, skip/take x {0,1,2,5}, step/chunks/windows x {1,2,3}) x source length 0..%d "
                 "(%d pipelines, all model-checked: OutputsEqualDefinition, StaysExhausted, PullsEachOnce); replay: 9 stepwise "
                 "next() calls over a pull-logging generator (outputs exact, pulls bounded by the adaptor machines, none before "
@@ -200,7 +206,10 @@ def run(tier, seed):
 
 def replay(path):
     d = json.load(open(path))
-    r = common.kv("run", [{"id": "replay", "src": d["source"], "limit_ms": 5000}])[0]
+    job = {"id": "replay", "src": d["source"], "limit_ms": 5000}
+    if d.get("source_kind") == "bytes":
+        job["bytes"] = list(range(1, d["n"] + 1))
+    r = common.kv("run", [job])[0]
     print(d["source"]); print("why:", d["why"]); print("now:", r.get("stdout"))
     if r.get("stdout") != d.get("actual"):
         print("(output changed since the violation was recorded)")
